@@ -303,6 +303,19 @@ class StmtMixin:
         return loops.index(node)
 
     def _for_symbolic(self, node, frame, seq, start, itv):
+        # map-form generator loop ``for x in seq: yield f(x)``: the yielded stream is the lazy image of the sequence
+        if (len(node.body) == 1 and isinstance(node.body[0], ast.Expr) and isinstance(node.body[0].value, ast.Yield)
+                and not node.orelse and "$yield" in frame.locals):
+            ynode = node.body[0].value
+            src = self.iter_remaining(itv) if isinstance(itv, SymIter) else seq
+
+            def getter(i, _src=src):
+                f2 = Frame(frame.finfo, frame.module, {}, closure=frame)
+                self.assign_target(node.target, _src.get(i), f2)
+                return self.eval(ynode.value, f2)
+
+            frame.locals["$yield"].append(("seq", LazySeq(src.length, getter, f"yield@{node.lineno}")))
+            return
         qual = self._frame_qual(frame)
         ordinal = self.loop_ordinal(node, frame)
         spec = self.loop_specs.get((qual, ordinal))
